@@ -6,7 +6,8 @@ from ..core import VOCAB, render
 
 RULE = ("valid v2 vectors: all 729 base assignments (exhaustive), all 729 x temporal sample, random full "
         "vectors incl. every defined/undefined group combination, random field order and ND spelling; "
-        "distinct = distinct set of defined fields; compared model-vs-code and Lean-specification-vs-code")
+        "distinct = distinct set of defined fields; compared model-vs-code and Lean-specification-vs-code"
+        " + special families (corner vectors, every metric spelled out, frozen rounding ties, v2 low-end and cap families, base + one optional metric); the same string constructed three times; scores read from as_json() under the four option sets; 4 warm threads (1 us switch interval); fresh processes whose first use of the package is concurrent")
 ASSUMPTIONS = ["Decimal arithmetic is exact for v2 (at most 23 significant digits < 28)"]
 
 
